@@ -75,14 +75,14 @@ CHECKS = {
              "steps, for every rational (hence every integer) vector c in the left null space of the stoichiometric matrix "
              "with no chemostated entry in its support: a reaction firing and a diffusion jump leave total c unchanged; one "
              "Gillespie Iterate conserves (every pair of draws); one tau-leap Apply_nevt conserves for EVERY count vector; "
-             "lifted by induction to runs; Euler: exact identity over Q for every topology with a half-edge pairing "
-             "(sum over half-edges of an antisymmetric flux via an involution), grid pairing from the neighbour involution, "
-             "graph kd symmetry; species in no reaction / diffusion-only are special cases. Tie: statement lists of all "
+             "lifted by induction to runs; Euler: exact identity over Q, unconditional for every valid grid (all sizes and "
+             "boundary settings: half-edges paired by the opposed direction, sum of an antisymmetric flux via an involution, "
+             "neighbour involution from the generated tables) and for every graph (induction over the edge list, parallel "
+             "edges and self-loops included); species in no reaction / diffusion-only are special cases. Tie: statement lists of all "
              "apply / derivative functions pinned against the modelled snapshot + replay correspondence of recorded steps of "
              "all three engines + oracle: exact integer left null space, totals on every recorded sample of real trajectories.",
-        note="euler_conserves is partial: proved for any paired topology; the graphTopo pairing instance is missing and the "
-             "gridTopo instance assumes the neighbour-involution lemma of C15. Float drift of Euler bounded by 1e-9 relative "
-             "per step (checked, not proved).",
+        note="Exact over Q; float drift of the Euler engine bounded by 1e-9 relative per step is checked on every recorded "
+             "step, not proved. The model's reading of the C++ is tied by the pinned statement lists + step replay.",
         technique="Lean 4 proof (induction + Finset involution) + differential correspondence + null-space oracle",
         design="§6 C02"),
     "C07": dict(
